@@ -1,5 +1,6 @@
 import NemoVerif.Drive.Common
 import NemoVerif.Models.LlmText
+import NemoVerif.Models.LlmGen
 
 namespace NemoVerif.Drive.C17
 open Lean NemoVerif NemoVerif.Drive NemoVerif.Py NemoVerif.Py.Str NemoVerif.LlmText
@@ -17,6 +18,7 @@ def errName : PyErr → String
   | .attributeError => "AttributeError"
   | .valueError => "ValueError"
   | .typeError => "TypeError"
+  | .keyError => "KeyError"
 
 def jex {α} (f : α → Json) : Except PyErr α → Json
   | .error e => Json.mkObj [("err", .str (errName e))]
@@ -75,6 +77,9 @@ def allOf (s : Str) (k : Nat) (p : Parser) : Json :=
     ("splitlines", jlist (splitLines s)),
     ("strip", js (strip s)),
     ("escape", js (escapeFlowName s)),
+    ("escape_u", js (escapeFlowNameU s)),
+    ("indent", js (indent (lit "  ") s)),
+    ("splitlines_keep", jlist (splitLinesKeep s)),
     ("post_user_intent_v2", js (postUserIntentV2 p s))
   ]
 
@@ -107,8 +112,54 @@ def srcName : Src → String
 def botOutJson (o : BotMsgOut) : Json :=
   Json.mkObj [("rendered", jlist o.rendered), ("text", js o.text), ("src", .str (srcName o.src))]
 
+def flowOutJson (o : FlowOut) : Json := Json.mkObj [("name", js o.name), ("body", js o.body)]
+
+def tableOf (j : Json) : Except String (Str → Bool) := do
+  let a ← j.getArr?
+  let tbl ← a.toList.mapM fun e => do
+    let p ← e.getArr?
+    if h : p.size = 2 then do
+      let k ← p[0].getStr?; let b ← p[1].getBool?; pure (k.toList, b)
+    else throw "bad table entry"
+  pure fun s => match lookup s tbl with
+    | some b => b
+    | none => false
+
+def evJson : Ev → Json
+  | .botIntent i => Json.mkObj [("type", "BotIntent"), ("intent", js i)]
+  | .startFlow b => Json.mkObj [("type", "start_flow"), ("flow_body", js b)]
+  | .listen => Json.mkObj [("type", "Listen")]
+  | .step n => Json.mkObj [("type", "step"), ("n", Json.num (JsonNumber.fromNat n))]
+
 def handle (op : String) (j : Json) : Except String Json := do
   match op with
+  | "gen" =>
+    let s ← str j "s"
+    let p ← parserOf ((optStr j "parser").getD "none")
+    let uuid ← str j "uuid"
+    let name ← str j "name"
+    let lpl ← str j "last_prompt_line"
+    let ia := userIntentAndBotAction escapeFlowNameU p s
+    pure (Json.mkObj [
+      ("from_instructions", jex flowOutJson (flowFromInstructions name s)),
+      ("from_name", jex js (flowFromName name s)),
+      ("continuation", jex flowOutJson (flowContinuation escapeFlowNameU uuid s)),
+      ("intent_and_action", Json.mkObj [("user_intent", js ia.userIntent), ("bot_intent", jopt js ia.botIntent), ("bot_action", js ia.botAction)]),
+      ("from_nld", jex flowOutJson (flowFromNld p uuid s)),
+      ("value_v2", jex js (postValueV2 p lpl s)),
+      ("user_intent_v2", js (orUnknownIntent (escapeFlowNameU (stripChars [' '] (match (match getFirstNonemptyLine (p.apply s) with
+          | some u => if !u.isEmpty && contains [':'] u then (match getFirstUserIntent [u] with | some t => if !t.isEmpty then some t else none | none => none) else some u
+          | none => none) with | none => userWasUnclear | some u => u)))))
+    ])
+  | "ms" =>
+    let s ← str j "s"
+    let p ← parserOf ((optStr j "parser").getD "none")
+    let tbl ← tableOf (← j.getObjVal? "parses")
+    pure (evJson (multiStepNextStep tbl p s))
+  | "msflow" =>
+    let fid ← str j "flow_id"
+    let body ← str j "body"
+    pure (Json.mkObj [("src", js (dynamicFlowSource fid body))])
   | "all" =>
     let s ← str j "s"
     let p ← parserOf ((optStr j "parser").getD "none")
@@ -130,7 +181,12 @@ def handle (op : String) (j : Json) : Except String Json := do
     let bi ← str j "bot_intent"
     let p ← parserOf ((optStr j "parser").getD "none")
     let out ← str j "llm"
-    pure (jex botOutJson (generateBotMessage render bms ctx bi (nat j "pick" 0) (postBotMessageRaw p out)))
+    let sc : Option (Str × Str) := match j.getObjVal? "sc" with
+      | .ok (.arr a) => if h : a.size = 2 then (match a[0], a[1] with | .str x, .str y => some (x.toList, y.toList) | _, _ => none) else none
+      | _ => none
+    match sc with
+    | some _ => pure (jex botOutJson (generateBotMessageSC render bms ctx bi (nat j "pick" 0) sc (postBotMessageRaw p out)))
+    | none => pure (jex botOutJson (generateBotMessage render bms ctx bi (nat j "pick" 0) (postBotMessageRaw p out)))
   | _ => throw s!"unknown op C17.{op}"
 
 end NemoVerif.Drive.C17
